@@ -623,3 +623,39 @@ def global_value(unit, g):
     if "init" in g:
         return init_value(unit, g["init"])
     return None
+
+
+def alpha_keys(fn, subst=None):
+    """statement keys of a function in reverse post-order with its own variables renamed canonically: parameters by
+    position (p0, p1, ...), locals by order of first appearance (v0, v1, ...).  Two functions that differ only in the
+    spelling of locals/parameters give the same list.  subst(str)->str is applied to each key afterwards."""
+    import copy
+    names = {}
+    for i, p in enumerate(fn.params):
+        names[p["id"]] = "p%d" % i
+    out = []
+
+    def ren(n):
+        if isinstance(n, dict):
+            if n.get("k") == "ref" and n.get("dk") in ("local", "parm") and "id" in n:
+                if n["id"] not in names:
+                    names[n["id"]] = "v%d" % sum(1 for v in names.values() if v.startswith("v"))
+                n["n"] = names[n["id"]]
+            if n.get("k") == "decl":
+                for v in n.get("vars", []):
+                    if v.get("id") is not None:
+                        if v["id"] not in names:
+                            names[v["id"]] = "v%d" % sum(1 for x in names.values() if x.startswith("v"))
+                        v["n"] = names[v["id"]]
+            for v in n.values():
+                ren(v)
+        elif isinstance(n, list):
+            for v in n:
+                ren(v)
+    for b in fn.rpo():
+        for e in fn.blocks[b].elems:
+            c = copy.deepcopy(e)
+            ren(c)
+            k = key(c)
+            out.append(subst(k) if subst else k)
+    return out
